@@ -765,9 +765,12 @@ def bare_break_in_item_loop(ctx, funcs, rule="LOOP-break", exempt=None):
         test = br.test
         names = {x.id for x in ast.walk(test) if isinstance(x, ast.Name)}
         # sentinel: `item is None`, `not item`, `item == ""`
-        t = test.operand if isinstance(test, ast.UnaryOp) and isinstance(test.op, ast.Not) else test
-        sentinel = (isinstance(t, ast.Name) and t.id in targets) or \
-          (isinstance(t, ast.Compare) and len(t.ops) == 1 and isinstance(t.left, ast.Name) and t.left.id in targets and isinstance(t.comparators[0], ast.Constant) and t.comparators[0].value in (None, "", b""))
+        def _sentinel(tt):
+          t = tt.operand if isinstance(tt, ast.UnaryOp) and isinstance(tt.op, ast.Not) else tt
+          return (isinstance(t, ast.Name) and t.id in targets) or \
+            (isinstance(t, ast.Compare) and len(t.ops) == 1 and isinstance(t.left, ast.Name) and t.left.id in targets and isinstance(t.comparators[0], ast.Constant) and t.comparators[0].value in (None, "", b""))
+        # (a conjunction with a sentinel test can only hold at the sentinel)
+        sentinel = _sentinel(test) or (isinstance(test, ast.BoolOp) and isinstance(test.op, ast.And) and any(_sentinel(v) for v in test.values))
         flag = bool(names) and names <= (assigned - targets)
         key = f"{f.qualname}|for {unparse(loop.target)} in {short(loop.iter, 40)}|if {short(test, 50)}: break"
         if sentinel or flag:
